@@ -38,11 +38,17 @@ def gen_cases(tier, seed):
         for t in tests:
             corp.append((t, ts + ":00"))
     cases = []
+    from . import streams as S
+    cov = [(e["t"], e["ts"]) for e in S.cov_entries() if "#" not in e["t"]]
     n = 40000 if tier == "thorough" else 7000
     for i in range(n):
         if i % 3 == 0:
             t, ts = r.choice(corp)
             cls = "corpus"
+        elif i % 10 == 1 and cov:
+            # a text of the coverage-guided corpus (vf/tools/covsoup.py) as the "expression": unusual rule combinations
+            t, ts = r.choice(cov)
+            cls = "coverage-corpus"
         else:
             c, t = G.expression(r)
             cls = c.split("/")[0]
